@@ -82,6 +82,9 @@ func Scale(q, th int) int {
 	if Thorough() {
 		n = th
 	}
+	if os.Getenv("VERIF_RACE") == "1" {
+		n /= 10 // the race-detector pass is a smaller, slower sample
+	}
 	n = (n + Shards() - 1) / Shards()
 	if n < 1 {
 		n = 1
